@@ -105,7 +105,7 @@ class C10(Base):
             "messages with/without value and 0-3 attributes (duplicate attribute names), terms, Junk lines, comments, "
             "field-less messages, the same id twice inside one resource; lookups (has_message, get_message value + "
             "attributes, get_attribute, term / function / message references through format_pattern) for every id "
-            "after the history and sometimes in between. thorough adds the exhaustive family of <=4 ops drawn from 16 "
+            "after the history and sometimes in between; three fixed boundary histories (a resource of 65 540 entries next to a small one, in both orders, and 300 one-entry resources) with lookups around 256 and 65 536. thorough adds the exhaustive family of <=4 ops drawn from 16 "
             "op shapes over 2 ids. Non-trivial = at least one id is defined twice in the history (Overriding error "
             "or replacement) and at least one lookup; distinct = distinct case line.")
     EXPLANATION = ("Theorems (all histories, induction over the op list): index invariant, refinement of the registry to "
@@ -137,7 +137,27 @@ class C10(Base):
         ops += g.lookups()
         return "reg " + ";".join(ops)
 
+    @staticmethod
+    def boundary_cases():
+        """sizes at which a narrowed index type would wrap: > 65536 entries in one resource, > 256 resources in one
+        bundle (judged by the python oracle; the Lean driver declines lines of this size)"""
+        def look(ids):
+            out = []
+            for i in ids:
+                h = hx(i)
+                out += ["has:" + h, "msg:" + h, "ref:" + h]
+            return out
+        big = ",".join("m/%s/%s/" % (hx("k%d" % i), hx("v%d" % i)) for i in range(65540))
+        small = ",".join("m/%s/%s/" % (hx("s%d" % i), hx("w%d" % i)) for i in range(50))
+        ids = ["k0", "k1", "k255", "k256", "k65535", "k65536", "k65537", "k65539", "s0", "s1", "s39", "s49"]
+        yield "reg add:%s;add:%s;%s" % (big, small, ";".join(look(ids)))
+        yield "reg addov:%s;addov:%s;%s" % (small, big, ";".join(look(ids)))
+        many = ";".join("%s:m/%s/%s/" % ("add" if i % 2 else "addov", hx("r%d" % i), hx("x%d" % i)) for i in range(300))
+        yield "reg %s;%s" % (many, ";".join(look(["r0", "r1", "r254", "r255", "r256", "r257", "r299"])))
+
     def generate(self, rng, tier):
+        for c in self.boundary_cases():
+            yield c
         n = 4000 if tier == "quick" else 120000
         for _ in range(n):
             yield self.history(rng)
